@@ -24,6 +24,8 @@ package autocert
 //@ requires dr.m != nil
 //@ requires 0 - 2305843009213693952 <= inst(notBefore) && inst(notBefore) <= inst(notAfter) && inst(notAfter) <= 2305843009213693952
 //@ requires dr.m.RenewBefore >= 0
+//@ note calls the Manager's clock (nowFunc), an arbitrary function: any memory may change
+//@ modifies heap
 //@ ensures result >= 0
 //@ canary ensures result > 0
 // the jitter window (checked where renewAt has just been computed): with
